@@ -643,6 +643,7 @@ def _run_unit(case, out):
             try:
                 _check_result(out, c, -r, -si, t, ft, "neg", dict(det, after_as_unit=t))
                 _check_result(out, c, abs(r), abs(si), t, ft, "abs", dict(det, after_as_unit=t))
+                _check_result(out, c, +r, si, t, ft, "pos", dict(det, after_as_unit=t))
             except Exception as ex:
                 out.fail("unary-raises", dict(det, target=t, error=repr(ex)))
             if out.disc:
@@ -653,6 +654,7 @@ def _run_unit(case, out):
         try:
             _check_result(out, c, -q, -si, u, f, "neg", det)
             _check_result(out, c, abs(q), abs(si), u, f, "abs", det)
+            _check_result(out, c, +q, si, u, f, "pos", det)
         except Exception as ex:
             out.fail("unary-raises", dict(det, error=repr(ex)))
         if out.disc:
@@ -691,6 +693,15 @@ def _run_unit(case, out):
                 _check_result(out, c, q + p, si + s2, u, f, "add", d2)
                 _check_result(out, c, q - p, si - s2, u, f, "sub", d2)
                 _check_result(out, c, p - q, s2 - si, u2_, f2_, "sub", d2)
+                # the augmented forms are the same operations
+                a_ = q
+                a_ += p
+                _check_result(out, c, a_, si + s2, u, f, "add", dict(d2, form="+="))
+                a_ = q
+                a_ -= p
+                _check_result(out, c, a_, si - s2, u, f, "sub", dict(d2, form="-="))
+                if not _same(q, si) or q.unit != u:
+                    out.fail("augmented-assignment-changed-the-operand", d2)
             except Exception as ex:
                 out.fail("binary-raises", dict(d2, error=repr(ex)))
             if out.disc:
